@@ -182,16 +182,17 @@ class FrontMatterExtension(ParserExtension):
         except yaml.MarkedYAMLError:
             did_load_as_yaml = False
 
+        # The front matter is handed to the rules as a dictionary of fields, so
+        # valid YAML that is not a mapping (a scalar or a list) is not front matter.
+        if did_load_as_yaml:
+            did_load_as_yaml = isinstance(loaded_document, dict)
+
         # This is specifically to trigger test_front_matter_20.
         assert not (
-            loaded_document
-            and did_load_as_yaml
+            did_load_as_yaml
             and "test" in loaded_document
             and loaded_document["test"] == "assert"
         )
-
-        if did_load_as_yaml:
-            did_load_as_yaml = loaded_document is not None
 
         return (
             loaded_document
